@@ -1,3 +1,107 @@
 package checks
 
-var poolChoice = []LeafDef{}
+import (
+	"strings"
+
+	"verifharness/internal/model"
+)
+
+// poolChoice: members of three choices (top level with prefix related names, inside a list entry, nested in a case) and non-members.
+var poolChoice = []LeafDef{
+	{"/ch/alpha", []string{"a1", "a2"}, "string"},
+	{"/ch/alpha-c/x", []string{"x1", "x2"}, "string"},
+	{"/ch/alpha-b", []string{"b1", "b2"}, "string"},
+	{"/ch/gamma", []string{"EMPTY"}, "empty"},
+	{"/ch/gamma/y", []string{"y1", "y2"}, "string"},
+	{"/ch/delta/z", []string{"z1", "z2"}, "string"},
+	{"/ch/alpha-beta", []string{"n1", "n2"}, "string"},
+	{"/ch/other", []string{"o1", "o2"}, "string"},
+	{"/svc[id=s1]/vlan", []string{"10", "20"}, "uint"},
+	{"/svc[id=s1]/vlan-name", []string{"v1", "v2"}, "string"},
+	{"/svc[id=s1]/vrf", []string{"r1", "r2"}, "string"},
+	{"/svc[id=s1]/descr", []string{"d1", "d2"}, "string"},
+	{"/svc[id=s10]/vlan", []string{"10", "20"}, "uint"},
+	{"/svc[id=s10]/vrf", []string{"r1", "r2"}, "string"},
+	{"/svc[id=s10]/descr", []string{"d1", "d2"}, "string"},
+}
+
+// poolChoiceNested adds the members of the choice nested in case l3.
+var poolChoiceNested = []LeafDef{
+	{"/svc[id=s1]/ip4", []string{"1.1.1.1", "2.2.2.2"}, "string"},
+	{"/svc[id=s1]/ip6", []string{"::1", "::2"}, "string"},
+}
+
+type choiceDef struct {
+	name   string
+	parent string              // schema path of the node holding the choice
+	cases  map[string][]string // case -> member names (relative to the parent)
+	within string              // for a nested choice: "outerChoice/case" it lives in
+}
+
+var choiceDefs = []choiceDef{
+	{"top", "/ch", map[string][]string{"alpha-case": {"alpha", "alpha-c"}, "alpha-b-case": {"alpha-b"}, "gamma-case": {"gamma"}, "delta": {"delta"}}, ""},
+	{"kind", "/svc", map[string][]string{"l2": {"vlan", "vlan-name"}, "l3": {"vrf", "ip4", "ip6"}}, ""},
+	{"addr", "/svc", map[string][]string{"v4": {"ip4"}, "v6": {"ip6"}}, "kind/l3"},
+}
+
+// choiceMember returns (instance prefix, case) if the canonical leaf path is a member of the choice.
+func (cd choiceDef) member(k string) (string, string) {
+	p := model.Parse(k)
+	for i := range p {
+		if model.SchemaPath(p[:i+1]) == cd.parent && i+1 < len(p) {
+			for cn, ms := range cd.cases {
+				for _, m := range ms {
+					if p[i+1].Name == m {
+						return p[:i+1].String(), cn
+					}
+				}
+			}
+		}
+	}
+	return "", ""
+}
+
+// resolveChoices removes from the winners the leaves of the cases that lose; returns the winning case per choice instance.
+func resolveChoices(m *model.Intents, winners map[string]model.Winner) map[string]string {
+	active := map[string]string{}
+	for _, cd := range choiceDefs {
+		// best priority per (instance, case) over ALL leaves that live intents define (not only the ruling ones)
+		best := map[string]map[string]int32{}
+		for _, in := range m.Live {
+			for k := range in.Expanded() {
+				if _, ok := winners[k]; !ok && cd.within != "" {
+					continue // removed by the outer choice
+				}
+				inst, cn := cd.member(k)
+				if inst == "" {
+					continue
+				}
+				if best[inst] == nil {
+					best[inst] = map[string]int32{}
+				}
+				if p, ok := best[inst][cn]; !ok || in.Prio < p {
+					best[inst][cn] = in.Prio
+				}
+			}
+		}
+		for inst, cs := range best {
+			win, wp := "", int32(1<<31-1)
+			for cn, p := range cs {
+				if p < wp || (p == wp && cn < win) {
+					win, wp = cn, p
+				}
+			}
+			active[inst+"#"+cd.name] = win
+			for k := range winners {
+				if i2, cn := cd.member(k); i2 == inst && cn != win {
+					delete(winners, k)
+				}
+			}
+		}
+	}
+	return active
+}
+
+func isChoicePath(k string) bool {
+	return strings.HasPrefix(k, "/ch/") || strings.HasPrefix(k, "/svc[")
+}
